@@ -47,6 +47,8 @@ func ruleC02(c *Check) {
 	c.escrowInventory("C02.7")
 	c.feeWriters("C02")
 	c.slashTriggerOnly("C02.1")
+	c.schemaPredicate("C02.1", "types.ValidateResponseOutput", "types.OutputSchema")
+	c.paramGettersExact("C02.3", "KeyServiceFeeTax", "KeySlashFraction")
 }
 
 func ruleC06(c *Check) {
@@ -67,6 +69,7 @@ func ruleC07(c *Check) {
 	c.respondRules("C07")
 	c.pricingTextPairs("C07.6")
 	c.newBatchRules("C07", map[string]bool{"supermode-charged": true})
+	c.paramGettersExact("C07.1", "KeyBaseDenom")
 }
 
 func ruleC13(c *Check) {
@@ -75,6 +78,7 @@ func ruleC13(c *Check) {
 	c.withdrawRules("C13")
 	c.withdrawAddressWriters("C13.4")
 	c.earningsDeleters("C13.6")
+	c.handlerAddressArgs("C13.7")
 	c.keyGrammar("C13.5", map[string]bool{"0x18": true, "0x19": true, "0x07": true, "0x05": true, "0x04": true})
 }
 
@@ -219,6 +223,15 @@ func (c *Check) filterRules(prefix string) {
 				continue
 			}
 			nAppend++
+			// the result list is built in fresh storage (appending into a slice of the argument would overwrite the
+			// caller's provider list, which the handler stores back on its pause and skip paths)
+			base := stripConv(ev.Val.A[0])
+			for base.Op == "append" && len(base.A) >= 1 {
+				base = stripConv(base.A[0])
+			}
+			if mentionsParam(base) {
+				problems = append(problems, "the result list shares storage with an argument: "+shortTerm(base))
+			}
 			if ev.Val.A[1].String() != prov {
 				problems = append(problems, "the appended element is "+shortTerm(ev.Val.A[1])+" — not the loop variable")
 			}
@@ -489,6 +502,21 @@ func (c *Check) priceSkeleton(rule string) {
 				}
 				rest = keep
 			}
+		}
+		// the factors are applied to the price one after the other (sdk.Dec rounds after every multiplication:
+		// combining discounts first loses digits the successive form keeps)
+		chain := true
+		for n := X; n.Op == "sdk.Dec.Mul" || n.Op == "sdk.Dec.MulInt"; n = n.A[0] {
+			if len(n.A) != 2 || n.A[1].Op == "sdk.Dec.Mul" || n.A[1].Op == "sdk.Dec.MulInt" || n.A[1].Op == "sdk.Dec.Quo" {
+				chain = false
+				break
+			}
+			if n.A[0].Op != "sdk.Dec.Mul" && n.A[0].Op != "sdk.Dec.MulInt" && n.A[0].String() != base {
+				chain = false
+			}
+		}
+		if base != "" && !chain {
+			problems = append(problems, "the discounts are not applied to the price successively (price·d1·d2, rounding after each step): "+shortTerm(X))
 		}
 		sort.Strings(want)
 		sort.Strings(rest)
